@@ -105,6 +105,7 @@ fn alphabet(n: usize, tier: Tier) -> Vec<Dev> {
         true
     }));
     d.extend(crate::devs::rich_generic_devs(true));
+    d.extend(crate::devs::syntax_devs(false, false, true, false).into_iter().filter(|d| d.label.contains("doc(hidden)")));
     for v in ["pub(crate)", "pub(super)"] {
         d.push(dev(format!("enum vis {}", v), &["evis"], move |s| {
             s.vis = v.to_string();
